@@ -69,13 +69,15 @@ func (x *Exec) harnessArgs(st *State, fn *ssa.Function, c *FnContract, op int) [
 		constrainFlags(cv, cpuT)
 		return cpuObj, cv
 	}
-	buildAlt := func(ram *Object, name string) (*Object, StructV) {
+	buildAlt := func(ram *Object, name string, constrain bool) (*Object, StructV) {
 		altT := w.typ(pkgAlt, "CPU")
 		abusT := w.typ(pkgAlt, "Bus")
 		cpuObj := x.newObj(altT, name)
 		cpuObj.Input = true
 		cv := x.symNoPtr(st, altT, name)
-		constrainFlags(cv, altT)
+		if constrain {
+			constrainFlags(cv, altT)
+		}
 		rd := x.callOne(st, w.fn("lemmas", "FlatReader"), []Value{Ptr{Obj: ram}})
 		wr := x.callOne(st, w.fn("lemmas", "FlatWriter"), []Value{Ptr{Obj: ram}})
 		ab := cv.F[fieldIdx(altT, "Bus")].(StructV)
@@ -107,7 +109,7 @@ func (x *Exec) harnessArgs(st *State, fn *ssa.Function, c *FnContract, op int) [
 		var cv StructV
 		var t types.Type
 		if isAlt {
-			cpuObj, cv = buildAlt(ram, "cpu")
+			cpuObj, cv = buildAlt(ram, "cpu", true)
 			t = w.typ(pkgAlt, "CPU")
 		} else {
 			cpuObj, cv = build65(ram, "cpu")
@@ -137,7 +139,7 @@ func (x *Exec) harnessArgs(st *State, fn *ssa.Function, c *FnContract, op int) [
 		cpuT := w.typ(pkgCPU, "CPU")
 		altT := w.typ(pkgAlt, "CPU")
 		aObj, av := build65(ram1, "cpu")
-		bObj, bv := buildAlt(ram2, "alt")
+		bObj, bv := buildAlt(ram2, "alt", false)
 		// same architectural and emulator state
 		ast := altT.Underlying().(*types.Struct)
 		for i := 0; i < ast.NumFields(); i++ {
